@@ -35,15 +35,16 @@ Qed.
 (* ---------------------------------------------------------------- one step *)
 
 Definition ev_q (e : event) : nat :=
-  match e with EStart q _ | EAcquire q | ETimeout q | EExit q _ => q end.
+  match e with EStart q _ | EAcquire q | ETimeout q | EExit q _ | ECancelWait q => q end.
 Definition ev_src (e : event) : phase :=
-  match e with EStart _ _ => Idle | EAcquire _ | ETimeout _ => Waiting | EExit _ _ => Holding end.
+  match e with EStart _ _ => Idle | EAcquire _ | ETimeout _ | ECancelWait _ => Waiting | EExit _ _ => Holding end.
 Definition ev_dst (e : event) : phase :=
   match e with
   | EStart _ ok => if ok then Waiting else Done OPrepErr
   | EAcquire _ => Holding
   | ETimeout _ => Done OTooMany
   | EExit _ o => Done o
+  | ECancelWait _ => Waiting
   end.
 Definition ph (s : state) (q : nat) : option phase := nth_error (phases s) q.
 
@@ -55,9 +56,10 @@ Lemma step_spec : forall strict max s e s1,
   | EAcquire _ => in_use s < max /\ in_use s1 = S (in_use s)
   | ETimeout _ => in_use s1 = in_use s /\ (strict = true -> max <= in_use s)
   | EExit _ o => post_acq o = true /\ in_use s1 = in_use s - 1
+  | ECancelWait _ => in_use s1 = in_use s
   end.
 Proof.
-  intros strict max s e s1 H. unfold ph. destruct e as [q ok|q|q|q o]; simpl in *;
+  intros strict max s e s1 H. unfold ph. destruct e as [q ok|q|q|q o|q]; simpl in *;
     destruct (nth_error (phases s) q) as [[| | |o']|] eqn:E; try discriminate.
   - inversion H; subst; simpl; auto.
   - destruct (in_use s <? max) eqn:L; try discriminate. inversion H; subst; simpl.
@@ -65,6 +67,7 @@ Proof.
   - destruct (strict && (in_use s <? max)) eqn:G; try discriminate. inversion H; subst; simpl.
     repeat split; auto. intros ->. simpl in G. apply Nat.ltb_ge in G. exact G.
   - destruct (post_acq o) eqn:P; try discriminate. inversion H; subst; simpl; auto.
+  - inversion H; subst; simpl; auto.
 Qed.
 
 Lemma step_other : forall strict max s e s1 q,
@@ -97,11 +100,12 @@ Lemma inv_step : forall strict max s e s1,
 Proof.
   intros strict max s e s1 [Hc Hb] H. apply step_spec in H as (Hs & Hp & He).
   unfold inv. rewrite Hp. pose proof (count_upd _ _ _ (ev_dst e) Hs) as C.
-  destruct e as [q ok|q|q|q o]; simpl in *; unfold hb in C; simpl in C.
+  destruct e as [q ok|q|q|q o|q]; simpl in *; unfold hb in C; simpl in C.
   - destruct ok; simpl in C; lia.
   - lia.
   - lia.
   - destruct He as [P He]. lia.
+  - lia.
 Qed.
 
 Lemma inv_run : forall strict max evs s s1,
@@ -191,7 +195,7 @@ Proof.
   intros strict max s e s1 q H. destruct (Nat.eq_dec q (ev_q e)) as [->|N].
   - rewrite (step_same _ _ _ _ _ H). pose proof (step_spec _ _ _ _ _ H) as (Hs & _ & He).
     rewrite Hs. unfold tm. split.
-    + intros D. right. destruct e as [q ok|q|q|q o]; simpl in *; try congruence.
+    + intros D. right. destruct e as [q ok|q|q|q o|q]; simpl in *; try congruence.
       * destruct ok; congruence.
       * destruct He as [P _]. inversion D; subst. discriminate.
     + intros [D|D].
@@ -227,11 +231,12 @@ Lemma step_acq : forall strict max s e s1 q,
 Proof.
   intros strict max s e s1 q H. destruct (Nat.eq_dec q (ev_q e)) as [->|N].
   - rewrite (step_same _ _ _ _ _ H). pose proof (step_spec _ _ _ _ _ H) as (Hs & _ & He).
-    rewrite Hs. destruct e as [q ok|q|q|q o]; simpl in *.
+    rewrite Hs. destruct e as [q ok|q|q|q o|q]; simpl in *.
     + destruct ok; simpl; split; try discriminate; intros [D|D]; discriminate.
     + split; auto.
     + split; try discriminate; intros [D|D]; discriminate.
     + destruct He as [P _]. rewrite P. split; auto.
+    + split; try discriminate; intros [D|D]; discriminate.
   - rewrite (step_other _ _ _ _ _ _ H N). split; auto.
     intros [D|D]; auto. subst. simpl in N. congruence.
 Qed.
@@ -286,6 +291,32 @@ Lemma full_blocks_acquire : forall strict max s q,
 Proof.
   intros. simpl. destruct (nth_error (phases s) q) as [[| | |]|]; auto.
   destruct (in_use s <? max) eqn:L; auto. apply Nat.ltb_lt in L. lia.
+Qed.
+
+(* ---------------------------------------------------------------- cancellation while waiting *)
+
+Lemma upd_same : forall A (l : list A) i x, nth_error l i = Some x -> upd l i x = l.
+Proof.
+  induction l; destruct i; simpl; intros; try discriminate; auto.
+  - inversion H; subst; auto.
+  - f_equal; auto.
+Qed.
+
+Lemma cancel_wait_neutral : forall strict max s q s1,
+  sem_step strict max s (ECancelWait q) = Some s1 ->
+  nth_error (phases s) q = Some Waiting /\ s1 = s.
+Proof.
+  intros strict max s q s1 H. simpl in H.
+  destruct (nth_error (phases s) q) as [[| | |o]|] eqn:E; try discriminate.
+  split; auto. inversion H; subst. unfold set_phase. rewrite (upd_same _ _ _ _ E).
+  destruct s; reflexivity.
+Qed.
+
+Lemma cancel_wait_enabled : forall strict max s q,
+  nth_error (phases s) q = Some Waiting -> sem_step strict max s (ECancelWait q) = Some s.
+Proof.
+  intros strict max s q E. simpl. rewrite E. unfold set_phase. rewrite (upd_same _ _ _ _ E).
+  destruct s; reflexivity.
 Qed.
 
 (* ---------------------------------------------------------------- script layer *)
